@@ -147,6 +147,9 @@ pub fn minimise(sc: &Scenario, v: &Violation, exec: &dyn Fn(&Scenario) -> Option
         }
         // 5. shrink parameters
         for ni in 0..best.nodes.len() {
+            if best.nodes[ni].dflt {
+                continue; // the parameters of a Default-built subject are not ours to change
+            }
             for which in 0..3 {
                 let cur = match which {
                     0 => best.nodes[ni].params.p1,
